@@ -504,16 +504,16 @@ func main() {
 		exhaustive(c, 5, n0, depth)
 		exhaustiveMalformed(c, 5, n0)
 	}
-	for i := c.Count(4000, 150000); i > 0; i-- {
+	for i := c.Count(4000, 20000); i > 0; i-- {
 		randomCase(c, "rnd", 200, 60)
 	}
-	for i := c.Count(3000, 100000); i > 0; i-- {
+	for i := c.Count(3000, 60000); i > 0; i-- {
 		randomCase(c, "rndsmall", 12, 25)
 	}
-	for i := c.Count(2000, 50000); i > 0; i-- {
+	for i := c.Count(2000, 30000); i > 0; i-- {
 		malformedCase(c)
 	}
-	for i := c.Count(500, 20000); i > 0; i-- {
+	for i := c.Count(500, 10000); i > 0; i-- {
 		hugeCase(c)
 	}
 }
